@@ -30,11 +30,37 @@ def majority_sites(ctx):
     return out
 
 
+def _iter_population(ctx, f, it):
+    """(attr, problem or None, unproven note or None) for the collection a counter ranges over"""
+    P, R = ctx.P, ctx.R
+    sn = f.self_name
+    attrs = []
+    for x in ast.walk(it):
+        a = P.self_attr(x, sn)
+        if a is not None and a not in attrs:
+            attrs.append(a)
+    if attrs == [R.voters] and P.self_attr(it, sn) == R.voters:
+        return R.voters, None, None
+    if R.observers in attrs or R.connected in attrs:
+        return attrs[0], 'counts over `%s`, which includes read-only / merely connected nodes, not over the voter set self.%s' % (unparse(it), R.voters), None
+    if len(attrs) == 1:
+        a = attrs[0]
+        # a per-node table: does it also hold read-only nodes?
+        for key in ('setOnReadonlyNodeConnectedCallback',):
+            g = R.slot_methods.get(key)
+            if g is not None and ('A:' + a) in P.writes(g):
+                return a, 'counts over `%s`; that table also receives entries for read-only nodes (%s writes it), so non-voters are counted' % (unparse(it), g.qualname), None
+        return a, None, 'population `%s` is not syntactically the voter set' % unparse(it)
+    return None, None, 'population `%s` not understood' % unparse(it)
+
+
 def _counter_info(ctx, f, counter, cmp_node):
-    """(kind, init value, counted set attr or None, problems) for the counter expression of a majority test"""
+    """(kind, init value, counted population text, problems, extra) for the counter expression of a majority test;
+    extra = {'cond': ast condition under which a member is counted, 'var': loop variable, 'unproven': note}"""
     P, R = ctx.P, ctx.R
     sn = f.self_name
     problems = []
+    extra = {}
     if isinstance(counter, ast.Name):
         name = counter.id
         inits = []
@@ -44,12 +70,37 @@ def _counter_info(ctx, f, counter, cmp_node):
                 inits.append(n)
             elif isinstance(n, ast.AugAssign) and isinstance(n.target, ast.Name) and n.target.id == name:
                 incs.append(n)
-        # nearest preceding init (same function, smaller line, closest)
         inits = [i for i in inits if i.lineno <= cmp_node.lineno]
         if not inits:
             return None
         init = max(inits, key=lambda i: i.lineno)
-        if not isinstance(init.value, ast.Constant) or not isinstance(init.value.value, int):
+        v = init.value
+        # form 2: K + sum(1 for x in ITER if COND)  /  K + len([x for x in ITER if COND])
+        comp = None
+        k = None
+        if isinstance(v, ast.BinOp) and isinstance(v.op, ast.Add):
+            for a_, b_ in ((v.left, v.right), (v.right, v.left)):
+                if isinstance(a_, ast.Constant) and isinstance(a_.value, int) and isinstance(b_, ast.Call) and isinstance(b_.func, ast.Name) \
+                        and b_.func.id in ('sum', 'len') and b_.args and isinstance(b_.args[0], (ast.GeneratorExp, ast.ListComp, ast.SetComp)):
+                    comp, k = b_.args[0], a_.value
+        elif isinstance(v, ast.Call) and isinstance(v.func, ast.Name) and v.func.id in ('sum', 'len') and v.args \
+                and isinstance(v.args[0], (ast.GeneratorExp, ast.ListComp, ast.SetComp)):
+            comp, k = v.args[0], 0
+        if comp is not None and len(comp.generators) == 1:
+            gen = comp.generators[0]
+            attr, prob, unp = _iter_population(ctx, f, gen.iter)
+            if prob:
+                problems.append(prob)
+            if unp:
+                extra['unproven'] = unp
+            extra['cond'] = gen.ifs[0] if len(gen.ifs) == 1 else (ast.BoolOp(op=ast.And(), values=gen.ifs) if gen.ifs else None)
+            extra['var'] = gen.target
+            extra['iter'] = gen.iter
+            later = [i for i in incs if init.lineno < i.lineno <= cmp_node.lineno]
+            for inc in later:
+                problems.append('counter %s additionally changed by `%s`' % (name, unparse(inc)))
+            return ('local', k, unparse(gen.iter), problems, extra)
+        if not isinstance(v, ast.Constant) or not isinstance(v.value, int):
             return None
         counted = None
         for inc in incs:
@@ -58,7 +109,6 @@ def _counter_info(ctx, f, counter, cmp_node):
             if not (isinstance(inc.op, ast.Add) and isinstance(inc.value, ast.Constant) and inc.value.value == 1):
                 problems.append('counter %s changed by `%s`' % (name, unparse(inc)))
                 continue
-            # enclosing for loop
             loop = None
             for n in U.walk_no_nested(f.node):
                 if isinstance(n, ast.For) and any(x is inc for x in ast.walk(n)):
@@ -68,13 +118,20 @@ def _counter_info(ctx, f, counter, cmp_node):
                 problems.append('counter %s incremented outside a loop over the voters' % name)
                 continue
             counted = unparse(loop.iter)
-            a = P.self_attr(loop.iter, sn)
-            if a != R.voters:
-                problems.append('counts over `%s`, not over the voter set self.%s' % (counted, R.voters))
-        return ('local', init.value.value, counted, problems)
+            attr, prob, unp = _iter_population(ctx, f, loop.iter)
+            if prob:
+                problems.append(prob)
+            if unp:
+                extra['unproven'] = unp
+            extra['iter'] = loop.iter
+            extra['var'] = loop.target
+            # the condition guarding the increment inside the loop
+            conds = [x for x in ast.walk(loop) if isinstance(x, ast.If) and any(y is inc for y in ast.walk(x))]
+            if conds:
+                extra['cond'] = max(conds, key=lambda c: c.lineno).test
+        return ('local', v.value, counted, problems, extra)
     a = P.self_attr(counter, sn)
     if a is not None:
-        # attribute counter (votes): initial value = the constant assigned together with the self vote
         init_val = None
         for g in P.methods_of(R.S):
             if g.name == '__init__':
@@ -82,7 +139,7 @@ def _counter_info(ctx, f, counter, cmp_node):
             for st, kind in U.assigns_to_attr(P, g, a):
                 if kind == 'assign' and isinstance(st.value, ast.Constant):
                     init_val = st.value.value
-        return ('attr', init_val, None, problems)
+        return ('attr', init_val, None, problems, extra)
     return None
 
 
@@ -108,9 +165,11 @@ def r_majority(ctx):
         if info is None:
             ctx.unproven(inst, loc, 'counter expression `%s` is not a recognised counting idiom' % unparse(counter))
             continue
-        kind, init, counted, problems = info
+        kind, init, counted, problems, extra = info
         for p in problems:
             ctx.violation('%s:majority-counter' % f.qualname, loc, p, instance=inst + ' [counter]')
+        if extra.get('unproven'):
+            ctx.unproven(inst + ' [population]', loc, extra['unproven'])
         if init is None:
             ctx.unproven(inst, loc, 'initial value of the counter not constant')
             continue
